@@ -1,5 +1,5 @@
 NOTES = (
-    "Technique family: static analysis only. Every check re-parses /repo/formulae/**/*.py on each run and decides repository-specific rules on extracted program models; exit 2 + ANALYSIS-ERROR means the analysis itself is broken (anchor vanished, unmodelled idiom, instance count below floor). Set FORMULAE_SRC=<dir> to analyse another tree (used for seeded variants). Before the rules run, the parsed tree is normalised relative to a snapshot of the tree the rules were written against (sa/reference_src): new helper functions are inlined, new immutable constants propagated, new base classes flattened, and a function whose canonical form (sa/canon.py: semantics-preserving source-to-source rewrites on the AST/CFG) equals the snapshot's is analysed in its snapshot form; the snapshot only proves equivalences, the verdict is always about /repo's current tree."
+    "Technique family: static analysis only. Every check re-parses /repo/formulae/**/*.py on each run and decides repository-specific rules on extracted program models; exit 2 + ANALYSIS-ERROR means the analysis itself is broken (anchor vanished, unmodelled idiom, instance count below floor). Set FORMULAE_SRC=<dir> to analyse another tree (used for seeded variants). Before the rules run, the parsed tree is normalised relative to a snapshot of the tree the rules were written against (sa/reference_src): new helper functions are inlined, new immutable constants propagated, new base classes flattened, and a function whose canonical form (sa/canon.py: semantics-preserving source-to-source rewrites on the AST/CFG) equals the snapshot's is analysed in its snapshot form; the snapshot only proves equivalences, the verdict is always about /repo's current tree. Surface syntax (match statements, assignment expressions, map / starmap / operator getters, generator pipelines, contextlib.suppress) is first rewritten into the plain forms the analyses read (sa/desugar.py)."
 )
 COMMON_NOTE = (
     "Trusted base: CPython's ast module, the hand-written catalogue of numpy/pandas/itertools semantics in /verif/sa, Python's operator-dispatch and hashing rules. Closed world: only the shipped package is analysed (user transforms / user functions are assumed pure and fit-once). Each rule is a necessary condition of the property, not a sufficient one."
